@@ -14,7 +14,7 @@ re-emission on those lines).
 import re
 
 from ..cfg import F, op_local, place_fields
-from ..gates import call_result_edges, guarded, test_edges
+from ..gates import call_result_edges, guarded, test_edges, compare_seeds
 from ..prov import origins, operand_origins
 from ..dep import deps
 
@@ -76,11 +76,80 @@ def _vec_pushes(fn, elem_pred):
     return out
 
 
+def _kind_tests(fn):
+    """calls comparing two TokenKind values: `==` resolves to the derived eq, `!=` to the provided PartialEq::ne"""
+    out = []
+    for b, nm, t in fn.calls(lambda n: n.endswith('::eq') or n.endswith('::ne')):
+        if re.search(r'TokenKind as core::cmp::PartialEq>::(eq|ne)$', nm) or (nm == 'core::cmp::PartialEq::ne' and any('TokenKind' in g for g in (t['f'].get('ga') or []))):
+            out.append((b, nm, t))
+    return out
+
+
+def _relex_verified(ctx, r1):
+    """format_line_tokens returns the glued line only behind the true edge of the re-lex comparison; its other result is
+    the join that keeps the source's adjacency (spacing style None)"""
+    fx = ctx.fx
+    rec = fx.fns.get(M + 'format_line_tokens')
+    r1.saw()
+    if rec is None or M + 'join_line_tokens' not in fx.fns:
+        r1.bad('relex-verified', 'format_line_tokens / join_line_tokens not found: nothing verifies that removing blanks did not merge tokens (`TO INT#10` -> `TOINT#10`)', loc=None)
+        return
+    fn = F(rec)
+    joins = fn.calls(lambda n: n == M + 'join_line_tokens')
+    checks = fn.calls(lambda n: n in fx.fns and fx.fns[n]['locals'][0] == 'bool' and 'trust_syntax::lexer::lex' in ctx.cg.reach([n]))
+    if not joins or not checks:
+        r1.bad('relex-verified', 'format_line_tokens does not re-lex the joined line: a removed blank can merge two tokens into another one (`TO INT#10` -> `TOINT#10`, `a . . b` -> `a..b`)', loc=fn.loc(0))
+        return
+    pos = set()
+    for b, nm, t in checks:
+        p_, n_, _ = call_result_edges(fn, b)
+        # the verified text is the joined line
+        if any(c[1] == M + 'join_line_tokens' for c in deps(fn, t['a'][0]).calls):
+            pos |= p_
+    bad = None
+    n_fallback = 0
+    for b, nm, t in joins:
+        style = t['a'][3] if len(t['a']) > 3 else None
+        is_none = False
+        if style is not None:
+            d = deps(fn, style)
+            is_none = not d.args and not d.calls and any('None' in k for k in d.consts) or (style[0] == 'k' and 'None' in str(style[2]))
+            if not is_none and style[0] in ('c', 'm'):
+                for (db, dk, drv) in fn.defs.get(style[1][0], []):
+                    if dk == 'A' and drv[0] == 'agg' and str(drv[1]).endswith('Option::None'):
+                        is_none = True
+        if is_none:
+            n_fallback += 1
+            continue
+        # a styled join: every return of its value must be behind the verified edge
+        for rb in fn.g:
+            for st in fn.bbs[rb]['s']:
+                if st[0] == 'A' and st[1][0] == 0 and not st[1][1]:
+                    if any(c[0] == b for c in deps(fn, st[2][1] if st[2][0] == 'use' else ['c', [0, []]]).calls) and not guarded(fn, rb, pos):
+                        bad = rb
+    if bad is not None or not pos:
+        r1.bad('relex-verified', 'format_line_tokens can return the glued line without the re-lex comparison having succeeded', loc=fn.loc(bad if bad is not None else 0))
+    elif not n_fallback:
+        r1.bad('relex-verified', 'format_line_tokens has no fallback that keeps the source\'s token separation', loc=fn.loc(0))
+    else:
+        r1.ok('relex-verified', loc=fn.loc(checks[0][0]), detail='%d styled join(s) behind the verified edge, %d adjacency-preserving fallback(s)' % (len(joins) - n_fallback, n_fallback))
+    # the comparison looks at token kinds
+    r1.saw()
+    cid = checks[0][1]
+    bodies = [cid] + list(fx.closures_of(cid))
+    if any(F(fx.fns[x]).calls(lambda n: re.search(r'TokenKind as core::cmp::PartialEq>::eq$', n) is not None) for x in bodies if x in fx.fns):
+        r1.ok('relex-compares-kinds')
+    else:
+        r1.bad('relex-compares-kinds', '%s does not compare token kinds' % cid.split('::')[-1], loc='%s:%d' % (fx.fns[cid]['file'], fx.fns[cid]['line']))
+
+
 def run(ctx):
     fx = ctx.fx
     # ------------------------------------------------------------------ R1
     r1 = ctx.rule('C15.R1', 'token re-emission: each token contributes exactly its own text (case-converted only if it is a keyword); the only other output is a single space', floor=4)
-    rec = fx.fns.get(M + 'format_line_tokens')
+    # the loop that emits the token texts: `join_line_tokens` (since the glue verification was added), formerly the body
+    # of `format_line_tokens` itself
+    rec = fx.fns.get(M + 'join_line_tokens') or fx.fns.get(M + 'format_line_tokens')
     if rec is None:
         r1.bad('anchor-missing|format_line_tokens', 'line formatter not found')
     else:
@@ -130,6 +199,7 @@ def run(ctx):
         # exactly one text push per token
         r1.saw()
         _once_per_iteration(fn, [b for b, _, _ in ps], r1, 'one-text-per-token', 'format_line_tokens')
+        _relex_verified(ctx, r1)
 
     # ------------------------------------------------------------------ R2
     r2 = ctx.rule('C15.R2', 'line correspondence: what range/on-type formatting index by source line has exactly one group per source line', floor=4)
@@ -275,6 +345,44 @@ def run(ctx):
             r3.bad('verbatim|flags', 'the line masks %s were not found (shape not recognised)' % missing, loc=fn.loc(0))
         elif okv:
             r3.ok('verbatim|flags', detail='token re-emission is behind the three not-flagged edges')
+        # every token that spans lines marks its lines verbatim: a comparison of two line indices (both from line_index)
+        # whose "spans lines" outcome reaches the write of the block-comment mask, without a restriction to one token
+        # kind other than Whitespace in between
+        r3.saw()
+        bc = mask_vec.get('line_in_block_comment', set())
+
+        def span_pred(op, a, c, bb):
+            if op not in ('Gt', 'Lt', 'Ne'):
+                return None
+            oa, oc = operand_origins(fn, a), operand_origins(fn, c)
+            if any(o[0] == 'call' and o[2] == M + 'line_index' for o in oa) and any(o[0] == 'call' and o[2] == M + 'line_index' for o in oc):
+                return True
+            return None
+        sseeds = compare_seeds(fn, span_pred)
+        spos = test_edges(fn, sseeds)[0] if sseeds else set()
+        marks = [rb for rb in fn.g if re.search(r'index_mut$|::get_mut$', fn.call_name(rb) or '') and (deps(fn, fn.term(rb)['a'][0]).locals & bc)]
+        nxt_all = {x for x in fn.g if NEXT.search(fn.call_name(x) or '') and 'Token' in ' '.join(fn.term(x)['f'].get('ga') or [])}
+        reach_m = fn.reach([x for (_, x) in spos], avoid=nxt_all) if spos else set()
+        if spos and marks and any(m_ in reach_m for m_ in marks):
+            # a token of no particular kind must get there: with the "is kind K" outcomes of every token-kind test
+            # (other than the exclusion of Whitespace) removed, the marking is still reachable from the span test
+            cut = set()
+            kinds_between = set()
+            for b2, nm, t in _kind_tests(fn):
+                var = promoted_variant(fdl, fn, t['a'][1]) or promoted_variant(fdl, fn, t['a'][0])
+                if var in ('Whitespace', None):
+                    continue
+                p_, n_, _ = call_result_edges(fn, b2)
+                cut |= (p_ if nm.endswith('::eq') else n_)
+                if b2 in reach_m:
+                    kinds_between.add(var)
+            still = fn.reach([x for (_, x) in spos], avoid=nxt_all, removed_edges=cut)
+            if not any(m_ in still for m_ in marks):
+                r3.bad('multi-line-token-lines', 'after the "spans several lines" test the verbatim marking is still restricted to token kind %s: the lines of other multi-line tokens are rebuilt from their (absent) tokens' % sorted(kinds_between), loc=fn.loc(marks[0]))
+            else:
+                r3.ok('multi-line-token-lines', loc=fn.loc(marks[0]))
+        else:
+            r3.bad('multi-line-token-lines', 'no token that merely spans several lines (a multi-line pragma, an unterminated comment) marks its lines as verbatim: their continuation lines carry no token and are emitted empty, the text is lost', loc=fn.loc(0))
         # block-comment lines: pushed value depends on the source slice only
         r3.saw()
         plain = [p for p, names in verb if any(re.search(r'str>::index$|Index<I> for str>::index$', n) for n in names) and not any('format!' in n or n.endswith('fmt::format') or n.endswith('alloc::fmt::format::format_inner') for n in names)]
@@ -282,6 +390,32 @@ def run(ctx):
             r3.ok('block-comment-copied', loc=fn.loc(plain[0]))
         else:
             r3.bad('block-comment-copied', 'no push of an unmodified source line found (block-comment lines must be copied as they are)', loc=fn.loc(0))
+
+    # ------------------------------------------------------------------ R5 layout passes find their positions in the token stream
+    r5 = ctx.rule('C15.R5', 'layout passes address positions by tokens: the alignment column is the start of a Colon token, long lines break at Comma tokens (a `:` or `,` inside a string, time literal or error token is part of that token)', floor=2)
+    from ..util import promoted_variant as _pv5
+    for name, kind, what in (('find_type_colon', 'Colon', 'the declaration colon is searched in the text of the line: a `:` inside a string or a TOD / DT literal of an initialiser is taken for it and the padding is inserted into the literal'),
+                             ('wrap_long_lines', 'Comma', 'long lines are split at `,` characters: a comma inside a token that is not masked (a string with an invalid escape lexes as an error token) is broken across lines')):
+        rec5 = fx.fns.get(M + name)
+        r5.saw()
+        if rec5 is None:
+            r5.bad('anchor-missing|%s' % name, '%s not found' % name)
+            continue
+        f5 = F(rec5)
+        bodies = [f5] + [F(fx.fns[c]) for c in fx.closures_of(M + name) if c in fx.fns]
+        lexes = any(x.calls(lambda n: n == 'trust_syntax::lexer::lex') for x in bodies)
+        kinds = set()
+        for x in bodies:
+            for b, nm, t in _kind_tests(x):
+                kinds.add(_pv5(x.r, x, t['a'][1]) or _pv5(x.r, x, t['a'][0]))
+        textual = [(x, b) for x in bodies for b, nm, t in x.calls(lambda n: re.search(r'<impl str>::(split|splitn|rsplit|split_terminator|find|rfind|match_indices|as_bytes|bytes|char_indices)$', n) is not None)]
+        key = 'by-token|%s' % name
+        if lexes and kind in kinds and not textual:
+            r5.ok(key, loc=f5.loc(0))
+        elif textual:
+            r5.bad(key, '%s (%s)' % (what, (textual[0][0].call_name(textual[0][1]) or '').split('::')[-1]), loc=textual[0][0].loc(textual[0][1]))
+        else:
+            r5.bad(key, what, loc=f5.loc(0))
 
     # ------------------------------------------------------------------ R4 web IDE formatter
     r4 = ctx.rule('C15.R4', 'web IDE formatter: lines covered by a multi-line block comment are copied unchanged; every other push is behind the not-in-comment edge', floor=2)
@@ -333,3 +467,32 @@ def run(ctx):
             r4.ok('comment-lines-copied', loc=fn.loc(verbatim[0]))
         else:
             r4.bad('comment-lines-copied', 'no unmodified copy of the line on the in-comment edge', loc=fn.loc(0))
+
+    # the marker itself: the lexer pass runs on every path (no shortcut on the source text), and the marking is not
+    # restricted to one token kind (only Whitespace may be excluded)
+    mk = None
+    for b, nm, t in fn.calls(lambda n: n in fx.fns and n.startswith('trust_runtime::web::ide::')):
+        if any(x == 'trust_syntax::lexer::lex' for x in cg.reach([nm])):
+            mk = nm
+    r4.saw()
+    if mk is None:
+        r4.bad('marker|lexer-pass', 'the line marker of the web formatter was not found', loc=fn.loc(0))
+        return
+    mf = F(fx.fns[mk])
+    lexb = set(mf.blocks_calling(lambda n: n == 'trust_syntax::lexer::lex'))
+    rets = [b for b in mf.g if mf.term(b)['k'] == 'ret']
+    ok_all, path = mf.must_pass_from([0], lexb) if lexb else (False, None)
+    if lexb and ok_all:
+        r4.ok('marker|lexer-pass', loc=mf.loc(min(lexb)))
+    else:
+        r4.bad('marker|lexer-pass', '%s can return without running the lexer: a textual shortcut decides which sources have multi-line tokens (a `/* */` comment or a pragma has no `(*`)' % mk.split('::')[-1], loc=mf.loc(0))
+    r4.saw()
+    from ..util import promoted_variant as _pv
+    restrict = set()
+    for b, nm, t in _kind_tests(mf):
+        var = _pv(fx.fns[mk], mf, t['a'][1]) or _pv(fx.fns[mk], mf, t['a'][0])
+        restrict.add(var)
+    if restrict - {'Whitespace'}:
+        r4.bad('marker|all-multi-line-tokens', 'the line marker looks at tokens of kind %s only: the continuation lines of other multi-line tokens (pragmas, unterminated comments) are trimmed and re-indented' % sorted(x for x in restrict if x != 'Whitespace'), loc=mf.loc(0))
+    else:
+        r4.ok('marker|all-multi-line-tokens')
